@@ -74,9 +74,11 @@ type World interface {
 
 // Sim is one run.
 type Sim struct {
-	Tape  *Tape
-	Cfg   Config
-	World World
+	Tape *Tape
+	Cfg  Config
+	// AlwaysArm lists scheduling-point sites that park regardless of the armed fraction.
+	AlwaysArm []string
+	World     World
 
 	Step  int
 	Phase Phase
@@ -205,7 +207,16 @@ func (s *Sim) ArmFraction(pct int, allow []string) {
 func (s *Sim) Yield(site, key string) {
 	// the driver goroutine itself never parks (it may call into the system under test
 	// from oracles); system goroutines only run while the driver is blocked.
-	if s == nil || s.armed == nil || s.driverActive || !s.armed(site) {
+	if s == nil || s.armed == nil || s.driverActive {
+		return
+	}
+	always := false
+	for _, a := range s.AlwaysArm {
+		if strings.Contains(site, a) {
+			always = true
+		}
+	}
+	if !always && !s.armed(site) {
 		return
 	}
 	if s.KeyAlias != nil {
